@@ -84,9 +84,22 @@ func (c *declChecker) check() []error {
 			for _, argArg := range descrAtom.Args[1:] {
 				c.checkStringConstant(argArg)
 			}
+		case ast.DescrMode:
+			if len(descrAtom.Args) != len(p.Args) {
+				c.errs = append(c.errs, fmt.Errorf("in decl %v: mode %v must have one entry per argument (%d)", p, descrAtom, len(p.Args)))
+			}
+		case ast.DescrReflects:
+			if len(p.Args) != 1 {
+				c.errs = append(c.errs, fmt.Errorf("in decl %v: only a unary predicate can have %v", p, descrAtom))
+			}
+		case ast.DescrMergePredicate:
+			c.checkMerge(p, descrAtom)
 		default:
 			// We ignore unknown descr atoms.
 		}
+	}
+	if c.decl.DeferredPredicate() && len(c.decl.Modes()) == 0 {
+		c.errs = append(c.errs, fmt.Errorf("in decl %v: deferred predicate must have a mode", p))
 	}
 	if c.decl.IsExternal() && len(c.decl.Modes()) != 1 {
 		c.errs = append(c.errs, fmt.Errorf("external predicate must have exactly one mode"))
@@ -112,6 +125,28 @@ func (c *declChecker) checkBound(p ast.Atom, boundDecl ast.BoundDecl) {
 			c.errs = append(c.errs, fmt.Errorf("in decl %v: the bound for argument %d must be parseable as predicate name: %v (%w)", p, i, bound, err))
 		}
 	}
+}
+
+// Checks that a merge descr atom has the form merge([Var], "pred"), where Var
+// is one of the declared arguments.
+func (c *declChecker) checkMerge(p ast.Atom, descrAtom ast.Atom) {
+	if len(descrAtom.Args) != 2 {
+		c.errs = append(c.errs, fmt.Errorf("in decl %v: merge atom must have 2 args, got %v", p, descrAtom))
+		return
+	}
+	target, ok := descrAtom.Args[0].(ast.ApplyFn)
+	if !ok || target.Function.Symbol != "fn:list" || len(target.Args) != 1 {
+		c.errs = append(c.errs, fmt.Errorf("in decl %v: merge atom must have a list with exactly one variable as first arg, got %v", p, descrAtom.Args[0]))
+		return
+	}
+	declared := false
+	for _, arg := range p.Args {
+		declared = declared || arg.Equals(target.Args[0])
+	}
+	if !declared {
+		c.errs = append(c.errs, fmt.Errorf("in decl %v: merge atom for an unknown variable %v", p, target.Args[0]))
+	}
+	c.checkStringConstant(descrAtom.Args[1])
 }
 
 // Checks that a base term is a string constant.
